@@ -28,11 +28,27 @@ structure WriteEvt where
   ok : Bool
   deriving DecidableEq, Repr
 
-/-- The world a handler runs in. `faults`: for each coming write attempt, `true` = it fails
-(the list running out means success). -/
+/-- What happens at one coming write attempt.
+* `pass`: the write completes;
+* `fail`: the transport raises `TransportFailedError`;
+* `cancel`: the task is cancelled while it waits in the write: `asyncio.CancelledError` (a
+  `BaseException`, caught by no `except Exception` / library clause) is raised at that await, the
+  line does not count as written. -/
+inductive Fault where
+  | pass | fail | cancel
+  deriving DecidableEq, Repr
+
+/-- The exception a fault makes the write raise. -/
+def Fault.exn : Fault → Option Exn
+  | .pass => none
+  | .fail => some (.lib .transportFailed)
+  | .cancel => some (.foreign .CancelledError)
+
+/-- The world a handler runs in. `faults`: one entry per coming write attempt (the list running
+out means success). -/
 structure W where
   st : St
-  faults : List Bool := []
+  faults : List Fault := []
   writes : List WriteEvt := []
   deriving Repr
 
@@ -80,8 +96,9 @@ def tryCatch (x : M α) (h : Exn → Option (M α)) : M α := fun w =>
 /-- `await transport.write(line)`: consumes one entry of the fault schedule. -/
 def transportWrite (line : Str) : M Unit := fun w =>
   match w.faults with
-  | true :: rest => (.error (.lib .transportFailed), { w with faults := rest, writes := w.writes ++ [⟨line, false⟩] })
-  | false :: rest => (.ok (), { w with faults := rest, writes := w.writes ++ [⟨line, true⟩] })
+  | .fail :: rest => (.error (.lib .transportFailed), { w with faults := rest, writes := w.writes ++ [⟨line, false⟩] })
+  | .cancel :: rest => (.error (.foreign .CancelledError), { w with faults := rest, writes := w.writes ++ [⟨line, false⟩] })
+  | .pass :: rest => (.ok (), { w with faults := rest, writes := w.writes ++ [⟨line, true⟩] })
   | [] => (.ok (), { w with writes := w.writes ++ [⟨line, true⟩] })
 
 end M
